@@ -165,7 +165,7 @@ func c03Feed(seq []c03lib.Hex, hook bool) c03lib.Outcome {
 	}
 	lg := &c03Logger{}
 	m := newUDPSessionManager(io, lg, 0)
-	defer m.cleanup(false)
+	defer verifCleanupAll(m)
 	cls := ""
 	for _, raw := range seq {
 		msg, err := protocol.ParseUDPMessage(c03lib.Fresh(raw))
@@ -193,7 +193,7 @@ func c03Feed(seq []c03lib.Hex, hook bool) c03lib.Outcome {
 	if _, ok := io.delivered("Z"); !ok {
 		return c03lib.Outcome{Class: cls, Clause: "the attacked session is not served after the sequence"}
 	}
-	m.cleanup(false)
+	verifCleanupAll(m)
 	if n := m.Count(); n != 0 {
 		return c03lib.Outcome{Class: cls, Clause: "sessions left after cleanup", Detail: fmt.Sprint(n)}
 	}
@@ -397,4 +397,15 @@ func c03Enumerate(sh *evidence.Shard) {
 
 func TestVerifC03Server(t *testing.T) {
 	evidence.Main(t, "C03", evidence.Seq{Run: c03Enumerate, Replay: c03lib.Replay(c03Unit, c03Exec)})
+}
+
+
+// verifCleanupAll closes every session of a manager at the end of a case. The private
+// cleanup(idleOnly bool) method is called through an interface assertion, so that a refactor of
+// it does not break the harness build; without it the sessions are left to the fake sockets'
+// Close (every case uses fresh objects).
+func verifCleanupAll(m *udpSessionManager) {
+	if c, ok := any(m).(interface{ cleanup(bool) }); ok {
+		c.cleanup(false)
+	}
 }
